@@ -80,13 +80,13 @@ class Outcome:
         for r in results:
             st = r.stats if isinstance(r.stats, dict) else {}
             self.agree += st.get("agree", 0)
-            self.agree_total += st.get("n", 0) if "agree" in st else 0
+            self.agree_total += st.get("modelled", st.get("n", 0)) if "agree" in st else 0
             for k, v in st.items():
-                if k not in ("n", "agree"):
+                if k not in ("n", "agree", "modelled"):
                     self.clause_hits[k] = self.clause_hits.get(k, 0) + (v if isinstance(v, int) else 0)
             for rid in r.drift:
                 if len(self.drift_examples) < 5:
-                    self.drift_examples.append(records_by_id.get(rid, {}).get("call", rid))
+                    self.drift_examples.append(_shorten(records_by_id.get(rid, {}).get("call", rid)))
             for rid, clauses, attr in r.verdicts:
                 mine = [c for c in clauses if c.startswith(self.prop + ".")]
                 if not mine:
